@@ -3,6 +3,7 @@ import Driver.Codec
 import Driver.C09
 import Driver.C08
 import Driver.C02
+import Driver.C17
 
 def main (args : List String) : IO UInt32 := do
   match args with
@@ -11,4 +12,5 @@ def main (args : List String) : IO UInt32 := do
   | ["c09"] => Redproxy.Driver.C09.main; return 0
   | ["c08"] => Redproxy.Driver.C08.main; return 0
   | ["c02"] => Redproxy.Driver.C02.main; return 0
+  | ["c17"] => Redproxy.Driver.C17.main; return 0
   | _ => IO.eprintln "usage: rpmodel <mode>  (cases on stdin, one output line per case on stdout)"; return 2
